@@ -157,7 +157,7 @@ def check(P, R):
     # ---- f: one buffer per read (only the buffer bound matters here; exactness of the accounting is C04 / C05)
     for fq in (f'{BM}:_iter_body', f'{BM}:_iter_chunked'):
         fr_ = P.func(fq)
-        reads = [c for c in c04.read_param_calls(fr_) if c.args and not (isinstance(c.args[0], ast.Constant) and c.args[0].value == 1)]
+        reads = [c for c in c04.read_param_calls(fr_) if c.args and not isinstance(c.args[0], ast.Constant)]
         R.require(reads, f'{fq}: payload read not found')
         for c in reads:
             cn = fr_.cfg.node_of_stmt(c)[0]
@@ -219,8 +219,9 @@ def check_memory_budget(P, R):
     ok = False
     for c in wins:
         t = enclosing(c, ast.If)
-        if t is not None and 'filename' in src(t.test) and T._inside(c, t.body):
-            ok = not any(T._inside(r, t.body) for r in reads)
+        if t is not None and 'filename' in src(t.test):
+            branch = t.body if T._inside(c, t.body) else t.orelse
+            ok = not any(T._inside(r, branch) for r in reads)
     R.ob('C13.e', f, wins[0] if wins else f.node, ok, text='file part -> BytesIOProxy window, no read', detail='' if ok else
          'file content is read into memory instead of being windowed')
     # returns the total read
@@ -250,8 +251,7 @@ def check_memory_budget(P, R):
 def check_get_body_string(P, R, rid):
     fs = P.func(f'{BM}:BodyMixin._get_body_string')
     gs, rs = fs.cfg, fs.rd
-    reads = [c for c in walk_shallow(fs.node) if isinstance(c, ast.Call) and (
-        (isinstance(c.func, ast.Name) and c.func.id == 'read') or call_attr(c) == 'read')]
+    reads = [c for c in walk_shallow(fs.node) if isinstance(c, ast.Call) and (T.resolved_callee(fs, c) or '').split('.')[-1] == 'read']
     reads = [c for c in reads if c.args]
     R.require(reads, '_get_body_string: no sized read')
     thr_names = {d.name for n in gs.nodes for d in rs.gen.get(n, []) if d.value is not None and 'max_memfile_size' in src(d.value)}
